@@ -57,6 +57,7 @@ type verdict struct {
 	Viol       []viol
 	Class      string // observed behaviour class (non-vacuity statistics)
 	Nontrivial bool
+	Features   []string
 	Desc       string
 	Trace      []string
 }
@@ -87,6 +88,7 @@ func evalCase(t *testing.T, c *Case) verdict {
 			v.Viol, v.Class = []viol{{c.Fam + "-hang", "the mock never finished (all goroutines of the bubble blocked): " + o.Hang}}, "hang"
 		case c.Fam == "sync":
 			v.Viol, v.Class = judgeSync(c, errs, o, ref)
+			v.Features = syncFeatures(ref)
 		default:
 			v.Viol, v.Class = judgeAsync(c, errs, o, ref)
 		}
@@ -129,6 +131,7 @@ type famStat struct {
 	Evaluations int            `json:"evaluations"`
 	Nontrivial  int            `json:"nontrivial"`
 	Classes     map[string]int `json:"classes"`
+	Features    map[string]int `json:"features"`
 }
 
 type workerResult struct {
@@ -222,6 +225,12 @@ func workerMain(t *testing.T) int {
 		}
 		fs.Evaluations++
 		fs.Classes[v.Class]++
+		for _, f := range v.Features {
+			if fs.Features == nil {
+				fs.Features = map[string]int{}
+			}
+			fs.Features[f]++
+		}
 		if v.Nontrivial {
 			fs.Nontrivial++
 			binary.LittleEndian.PutUint64(buf[:], c.Hash())
@@ -442,6 +451,12 @@ func parentMain(t *testing.T) int {
 			for k, n := range s.Classes {
 				ts.Classes[k] += n
 			}
+			for k, n := range s.Features {
+				if ts.Features == nil {
+					ts.Features = map[string]int{}
+				}
+				ts.Features[k] += n
+			}
 		}
 		for sgn, si := range r.Viol {
 			ts := total.Viol[sgn]
@@ -509,6 +524,12 @@ func parentMain(t *testing.T) int {
 	c.Set("rule", "cases are enumerated exhaustively (cases_test.go): async = every expectation script over 6 kinds up to the bound × 0..len+1 messages × 5 partitioners × 5 topic configurations × Return.Successes × Return.Errors × checker API × Close/AsyncClose; sync = scripts × messages × every split of the messages into SendMessage/SendMessages calls × partitioners × 3 topic configurations × checker API; conc = scripts × every interleaving of two sender goroutines (explicitly sequenced in a synctest bubble) × {hash, round-robin} × buffered/unbuffered channels; cons = every per-partition behaviour (yield script over {message,error}, offset expectation any/met/not met, drained expectations, consumed or not, reads before close, own close operation, yields before/after ConsumePartition) for 1 and 2 partitions × every order of the close operations × unregistered partition. A case is non-trivial when at least one message outcome, ErrorReporter call, yield or partition registration is compared with the reference model (only the empty script with 0 messages is trivial); distinct = distinct FNV-64 hashes of the canonical JSON of non-trivial cases, counted over the hash files the workers wrote")
 	c.Set("bounds", map[string]interface{}{"producer_script_len": b.MaxScript, "concurrent_script_len": b.ConcScript, "consumer_yields_single_partition": b.Cons1Yields, "consumer_yields_two_partitions_each": b.Cons2Yields, "messages": "0..len+1", "senders": 2, "partitions_consumer": "1..2"})
 	c.Set("families", perFam)
+	if s := total.Fam["sync"]; s != nil {
+		c.Set("sync_pattern_counts", s.Features)
+		if !cut && s.Features["sendmessages-fails-after-accepted-prefix-then-later-successful-send"] == 0 {
+			c.EngineError("the sync enumeration contains no SendMessages batch failing after an accepted prefix that is followed by a successful send")
+		}
+	}
 	c.Set("distinct_observed_behaviours", classesTotal)
 	c.Set("violation_signature_counts", sigCounts)
 	c.Set("executed_twice_for_determinism", total.Twice)
